@@ -5,8 +5,8 @@
 d=$(readlink -f $1); t=${2:-quick}
 c=$(python3 -c "import json;print(json.load(open('$d/meta.json'))['property'])")
 wt=$(mktemp -d -u /tmp/qb-XXXX)
-git -C /repo worktree add -q --detach $wt HEAD || { echo "$(basename $(dirname $d))/$(basename $d) $c WORKTREE-FAIL"; exit 0; }
-if ! git -C $wt apply $d/patch.diff 2>/dev/null; then
+git -C /repo worktree add -q --detach $wt ${BASE:-HEAD} || { echo "$(basename $(dirname $d))/$(basename $d) $c WORKTREE-FAIL"; exit 0; }
+if ! git -C $wt apply $d/patch.diff 2>/dev/null && ! git -C $wt apply --3way $d/patch.diff >/dev/null 2>&1; then
   echo "$(basename $d) $c PATCH-DOES-NOT-APPLY"
 else
   out=/tmp/qb-$$.out
